@@ -34,12 +34,35 @@ InvDirectIsPlainAppend ==
 \* to_native adds at most one start/end marker pair enclosing every library and removes only
 \* -isystem of default directories
 InvNativeShape ==
-    LET N == NativeOf(L, Gnu)
-        plain(a) == a.m = 0
+    \A N \in NativeSet(L, Gnu) :
+    LET plain(a) == a.m = 0
         nosys(a) == a.s = 0
+        libs     == { i \in 1..Len(L) : L[i].g = 1 }
     IN /\ SelectSeq(SelectSeq(N, plain), nosys) = SelectSeq(L, nosys)
        /\ Count(N, StartGroup) = Count(N, EndGroup) /\ Count(N, StartGroup) <= 1
        /\ (Count(N, StartGroup) = 1 =>
-             \A i \in 1..Len(N) : N[i].g = 1 => Pos(N, StartGroup) < i /\ i < Pos(N, EndGroup))
-       /\ (Cardinality({ i \in 1..Len(L) : L[i].g = 1 }) >= 2 /\ Gnu) => Count(N, StartGroup) = 1
+             /\ \A i \in 1..Len(N) : N[i].g = 1 => Pos(N, StartGroup) < i /\ i < Pos(N, EndGroup)
+             \* the group starts and ends at an argument that is, or may be read as, a library
+             /\ N[Pos(N, StartGroup) + 1].g \in {1, 2} /\ N[Pos(N, EndGroup) - 1].g \in {1, 2})
+       /\ (Cardinality(libs) >= 2 /\ Gnu) => Count(N, StartGroup) = 1
+       /\ (Cardinality(libs) + Cardinality({ i \in 1..Len(L) : L[i].g = 2 }) < 2 \/ ~ Gnu) => Count(N, StartGroup) = 0
+\* -isystem of a default include directory: all three spellings are removed (the bare "-isystem" together with the
+\* directory that follows it), nothing else is; grouping does not change what is removed
+InvSystemDirsRemovedExactly ==
+    LET N     == NativeOf(L, FALSE)
+        pairs == { i \in 1..(Len(L) - 1) : L[i].s = 2 /\ L[i + 1].s = 3 }
+        ones  == { i \in 1..Len(L) : L[i].s = 1 }
+        plain(a) == a.m = 0
+    IN /\ \A i \in 1..Len(N) : N[i].s # 1
+       /\ Len(L) - Len(N) = Cardinality(ones) + 2 * Cardinality(pairs)
+       \* a bare -isystem that is not followed by a default directory, and a default directory that does not
+       \* follow a bare -isystem, stay
+       /\ Count(N, AlphaSeq[10]) = Count(L, AlphaSeq[10]) - Cardinality(pairs)
+       /\ SelectSeq(NativeOf(L, TRUE), plain) = N
+       /\ (\A i \in 1..Len(L) : L[i].s = 0) => N = L
+\* the reading without any optional library is always among the accepted ones, and without arguments of
+\* unspecified status there is exactly one accepted result
+InvNativeSetHasNativeOf ==
+    /\ NativeOf(L, Gnu) \in NativeSet(L, Gnu)
+    /\ MaybeLibs(L) = {} => NativeSet(L, Gnu) = { NativeOf(L, Gnu) }
 =============================================================================
